@@ -17,9 +17,18 @@ def _allowed(res):
 
 # ---------------------------------------------------------------- engine oracles
 
+def _hang(impl):
+    for k in ("res", "cres", "fres"):
+        if impl.get(k, "").startswith("hang"):
+            return ("check-hang", f"the check did not return within the watchdog time ({k})")
+    return None
+
+
 def oracle_c01(cid, impl, m):
     """Check(C,m,T,q) = RefSem when limits are not binding (read off the model),
     no error, and (strict mode) the store conforms to the declared types."""
+    if _hang(impl):
+        return _hang(impl)
     if "res" not in m or m.get("ref") in (None, "bad"):
         return None
     if m.get("lim") != "0" or not m["res"].endswith("/none"):
@@ -36,7 +45,13 @@ def oracle_c01(cid, impl, m):
 
 
 def oracle_c02(cid, impl, m):
-    """Fail closed: allowed under any limits implies allowed by the unbounded semantics."""
+    """Fail closed: allowed under any limits implies allowed by the unbounded semantics. Clamp: the request
+    answers as the same request (request depth 0) against a fresh engine whose global limit is the effective depth."""
+    if _hang(impl):
+        return _hang(impl)
+    if "fres" in impl and impl.get("res") != impl["fres"]:
+        return ("c02-clamp", f"request answered {impl.get('res')}, the same request against a fresh server whose global limit is the "
+                             f"effective depth answers {impl['fres']}")
     if "res" not in m or m.get("ref") in (None, "bad"):
         return None
     if not impl.get("res", "").endswith("/none"):
@@ -65,6 +80,8 @@ def oracle_c03(cid, impl, m):
     timeout, closed connection): an error, or the fault-free answer; never allowed when
     the fault-free answer is denied; an answer with an error is never allowed. Judged for
     the sequential and (cres) the real concurrent checkgroup."""
+    if _hang(impl):
+        return _hang(impl)
     if "res" not in m or "res0" not in m:
         return None
     for key in ("res", "cres"):
@@ -85,6 +102,8 @@ def oracle_c03(cid, impl, m):
 def oracle_c11(cid, impl, m):
     """An OPL document accepted by the real parser/type checker, a store that conforms
     to the declared types and a query on a declared relation: no schema error."""
+    if _hang(impl):
+        return _hang(impl)
     if "res" not in m or impl.get("opl") != "1":
         return None
     if m.get("conf") != "1" or m.get("qdecl") != "1":
@@ -117,6 +136,16 @@ def oracle_c15_life(cid, impl, m):
         return ("c15-result", f"{kind}: answered {lres}, expected one of {sorted(x for x in ok if x)}")
     if lres.startswith("isMember/") and not lres.endswith("/none"):
         return ("c15-allowed-with-error", f"{lres}")
+    return True
+
+
+def oracle_c15_wide(cid, impl, m):
+    """Very wide nodes: the check returns, after the number of storage operations the model predicts (the
+    correspondence: calls)."""
+    if _hang(impl):
+        return _hang(impl)
+    if "res" not in impl:
+        return None
     return True
 
 
@@ -935,8 +964,9 @@ PROPS = {
                      "Keto.CG.cg_no_drop", "Keto.FactsTie.chanSites_tie"],
         "streams": [{"name": "cg", "n": {"quick": 400, "thorough": 4000}, "oracle": oracle_c15_cg, "thorough_seeds": 3},
                     {"name": "engine-life", "n": {"quick": 60, "thorough": 600}, "oracle": oracle_c15_life, "thorough_seeds": 3,
-                     "ignore": ["res", "calls"]}],
-        "rule": "cg: scripted check functions (NotMember/Unknown/IsMember/error, random delays, a check that cancels the context) through the real concurrent checkgroup; engine-life: real engine with the real concurrent checkgroup, request cancelled before start / at the k-th storage call, k-th storage call failing; non-trivial = at least 2 checks / 2 storage calls",
+                     "ignore": ["res", "calls"]},
+                    {"name": "engine-wide", "n": {"quick": 10, "thorough": 80}, "oracle": oracle_c15_wide, "thorough_seeds": 2}],
+        "rule": "cg: scripted check functions (NotMember/Unknown/IsMember/error, random delays, a check that cancels the context) through the real concurrent checkgroup; engine-life: real engine with the real concurrent checkgroup, request cancelled before start / at the k-th storage call, k-th storage call failing; non-trivial = at least 2 checks / 2 storage calls; engine-wide: nodes with more than 1000 subject sets / more than 100 traversed parents and page sizes 1-3 (every check under a watchdog)",
         "partial": "'returns promptly' is observed with a timeout, goroutine release by counting goroutines; storage-call bound is the model's structural bound",
         "assumptions": [],
     },
